@@ -84,27 +84,29 @@ spec fn keys_sorted(s: Seq<Item>) -> bool {
 }
 
 /// R[a..b) consists only of heads that the rules allow to vanish, each with its whole same-key tail
-spec fn chunks_ok(r: Seq<Item>, a: int, b: int, evict: bool) -> bool
+spec fn chunks_ok(r: Seq<Item>, a: int, b: int, evict: bool, w: SeqNo) -> bool
     decreases b - a
 {
     if a >= b { a == b } else if !(0 <= a < r.len()) || !(r[a] is Ok) { false } else {
         let h = r[a]->Ok_0;
         let m = same_key_prefix(r.skip(a + 1), h.key.user_key.rank(), false, !evict) as int;
         ( (dead(h) && evict) || (h.key.value_type == ValueType::WeakTombstone && m >= 1 && r[a + 1]->Ok_0.key.value_type == ValueType::Value) )
-        && a + 1 + m <= b && chunks_ok(r, a + 1 + m, b, evict)
+        // C02 (S): versions beneath a dropped head are dropped only if that head is at or below the GC watermark
+            && (m >= 1 ==> h.key.seqno <= w)
+            && a + 1 + m <= b && chunks_ok(r, a + 1 + m, b, evict, w)
     }
 }
 
-proof fn lemma_chunks_append(r: Seq<Item>, a: int, mid: int, b: int, evict: bool)
-    requires chunks_ok(r, a, mid, evict), chunks_ok(r, mid, b, evict), a <= mid <= b,
-    ensures chunks_ok(r, a, b, evict),
+proof fn lemma_chunks_append(r: Seq<Item>, a: int, mid: int, b: int, evict: bool, w: SeqNo)
+    requires chunks_ok(r, a, mid, evict, w), chunks_ok(r, mid, b, evict, w), a <= mid <= b,
+    ensures chunks_ok(r, a, b, evict, w),
     decreases mid - a
 {
     if a >= mid {
     } else {
         let h = r[a]->Ok_0;
         let m = same_key_prefix(r.skip(a + 1), h.key.user_key.rank(), false, !evict) as int;
-        lemma_chunks_append(r, a + 1 + m, mid, b, evict);
+        lemma_chunks_append(r, a + 1 + m, mid, b, evict, w);
     }
 }
 
@@ -150,11 +152,11 @@ proof fn lemma_vals_split(r: Seq<Item>, a: int, m: int)
 }
 
 /// P1, P3, P4 and the suffix rule of the step contract (DESIGN 5/C01.6)
-spec fn step_struct(r0: Seq<Item>, r1: Seq<Item>, evict: bool, zero: bool, r: Option<Item>) -> bool {
+spec fn step_struct(r0: Seq<Item>, r1: Seq<Item>, evict: bool, zero: bool, w: SeqNo, r: Option<Item>) -> bool {
     let n = r0.len() - r1.len();
     0 <= n <= r0.len() && r1 == r0.skip(n)
     && match r {
-        None => n == r0.len() && all_ok(r0) && chunks_ok(r0, 0, n, evict),
+        None => n == r0.len() && all_ok(r0) && chunks_ok(r0, 0, n, evict, w),
         Some(Err(e)) => n >= 1 && r0[n - 1] == Err::<InternalValue, Error>(e),
         Some(Ok(x)) => all_ok(r0.take(n)) && exists|i: int| 0 <= i < n
                 && #[trigger] r0[i]->Ok_0.key.user_key.rank() == x.key.user_key.rank()
@@ -164,7 +166,10 @@ spec fn step_struct(r0: Seq<Item>, r1: Seq<Item>, evict: bool, zero: bool, r: Op
                 // C13 (N2): versions dropped beneath an emitted live entry never include a weak tombstone unless this is the
                 // last level - it may still be needed to shadow data in lower levels once the entry above it is cancelled out
                 && (!evict && !dead(r0[i]->Ok_0) ==> forall|j: int| i < j < n ==> (#[trigger] r0[j])->Ok_0.key.value_type != ValueType::WeakTombstone)
-                && chunks_ok(r0, 0, i, evict),
+                // C02 (S): versions beneath the emitted entry are dropped only if it is at or below the GC watermark,
+                // i.e. visible to every snapshot still in use
+                && (n > i + 1 ==> r0[i]->Ok_0.key.seqno <= w)
+                && chunks_ok(r0, 0, i, evict, w),
     }
 }
 
@@ -214,13 +219,13 @@ impl<F: StreamFilter> CompactionStream<F> {
             }),
     { unimplemented!() }
 
-//@ FROM src/compaction/stream.rs :: Iterator for CompactionStream :: fn next :: OBL C01.6, C09.1, C13.2
+//@ FROM src/compaction/stream.rs :: Iterator for CompactionStream :: fn next :: OBL C01.6, C09.1, C13.2, C02.11
 //@ SUBST `Self :: Item` ==> `Item`
  /*+*/#[verifier::rlimit(1500)]/*-*/ fn next (&mut self) ->  /*+*/(r:/*-*/ Option < Item >  /*+*/)
         requires keys_sorted(old(self).inner.rest()), old(self).has_cb(),
         ensures
             final(self).same_cfg(old(self)),
-            step_struct(old(self).inner.rest(), final(self).inner.rest(), old(self).evict_tombstones, old(self).zero_seqnos, r),   // @OBL C01.6, C13.2
+            step_struct(old(self).inner.rest(), final(self).inner.rest(), old(self).evict_tombstones, old(self).zero_seqnos, old(self).gc_seqno_threshold, r),   // @OBL C01.6, C13.2, C02.11
             step_log(old(self).inner.rest(), final(self).inner.rest(), old(self).log(), final(self).log(), old(self).zero_seqnos, r),   // @OBL C09.1
         /*-*/ {
  /*+*/let ghost r0 = self.inner.rest();
@@ -229,7 +234,7 @@ impl<F: StreamFilter> CompactionStream<F> {
         proof { assert(r0.skip(0) =~= r0); assert(vals(r0.take(0)) =~= Seq::<InternalValue>::empty()); assert(live(l0) + live(Seq::<InternalValue>::empty()) =~= live(l0)); }/*-*/ loop  /*+*/invariant
                 self.same_cfg(old(self)),
                 0 <= k <= r0.len(), self.inner.rest() == r0.skip(k), all_ok(r0.take(k)),
-                r0 == old(self).inner.rest(), keys_sorted(r0), chunks_ok(r0, 0, k, self.evict_tombstones),   // @OBL C01.6, C13.2
+                r0 == old(self).inner.rest(), keys_sorted(r0), chunks_ok(r0, 0, k, self.evict_tombstones, self.gc_seqno_threshold),   // @OBL C01.6, C13.2, C02.11
                 self.has_cb(), l0 == old(self).log(),
                 live(self.log()) == live(l0) + live(vals(r0.take(k))),   // @OBL C09.1
             decreases self.inner.rest().len()/*-*/ {
@@ -253,7 +258,7 @@ impl<F: StreamFilter> CompactionStream<F> {
                 assert(vals(r0.take(h + 1)) =~= vals(r0.take(h)).push(r0[h]->Ok_0));
                 lemma_live_push(vals(r0.take(h)), r0[h]->Ok_0);   // @OBL C09.1
             }
-            proof { assert(chunks_ok(r0, 0, h, self.evict_tombstones)); assert(head == r0[h]->Ok_0); k = k + 1; }/*-*/ if !head.is_tombstone () {
+            proof { assert(chunks_ok(r0, 0, h, self.evict_tombstones, self.gc_seqno_threshold)); assert(head == r0[h]->Ok_0); k = k + 1; }/*-*/ if !head.is_tombstone () {
 match fail_iter !(self.filter.filter_item (&head)) {
 StreamFilterVerdict::Keep => {
 }
@@ -282,14 +287,14 @@ if head.is_tombstone () &&self.evict_tombstones {
  /*+*/proof {
                             assert(r0.skip(h + 1)[0] == r0[h + 1]);
                             assert(same_key_prefix(r0.skip(h + 1), r0[h]->Ok_0.key.user_key.rank(), false, !self.evict_tombstones) == 0);
-                            assert(chunks_ok(r0, h + 1, h + 1, self.evict_tombstones));   // @OBL C01.6, C13.2
-                            assert(chunks_ok(r0, h, h + 1, self.evict_tombstones));   // @OBL C01.6, C13.2
-                            lemma_chunks_append(r0, 0, h, h + 1, self.evict_tombstones);   // @OBL C01.6, C13.2
+                            assert(chunks_ok(r0, h + 1, h + 1, self.evict_tombstones, self.gc_seqno_threshold));   // @OBL C01.6, C13.2, C02.11
+                            assert(chunks_ok(r0, h, h + 1, self.evict_tombstones, self.gc_seqno_threshold));   // @OBL C01.6, C13.2, C02.11
+                            lemma_chunks_append(r0, 0, h, h + 1, self.evict_tombstones, self.gc_seqno_threshold);   // @OBL C01.6, C13.2, C02.11
                             assert(dead(r0[h]->Ok_0));
                         }/*-*/ continue;
 }
 }
-else if peeked.key.seqno < self.gc_seqno_threshold {
+else if head.key.seqno <= self.gc_seqno_threshold {
 if head.key.value_type == ValueType::Tombstone &&self.evict_tombstones {
  /*+*/let ghost s = self.inner.rest();
                         proof {
@@ -302,9 +307,9 @@ if head.key.value_type == ValueType::Tombstone &&self.evict_tombstones {
                             lemma_prefix(s, head.key.user_key.rank(), false, false);
                             assert(r0.skip(k).skip(m) =~= r0.skip(k + m));
                             lemma_take_ok(r0, k, m, head.key.user_key.rank());
-                            assert(chunks_ok(r0, h + 1 + m, h + 1 + m, self.evict_tombstones));   // @OBL C01.6, C13.2
-                            assert(chunks_ok(r0, h, h + 1 + m, self.evict_tombstones));   // @OBL C01.6, C13.2
-                            lemma_chunks_append(r0, 0, h, h + 1 + m, self.evict_tombstones);   // @OBL C01.6, C13.2
+                            assert(chunks_ok(r0, h + 1 + m, h + 1 + m, self.evict_tombstones, self.gc_seqno_threshold));   // @OBL C01.6, C13.2, C02.11
+                            assert(chunks_ok(r0, h, h + 1 + m, self.evict_tombstones, self.gc_seqno_threshold));   // @OBL C01.6, C13.2, C02.11
+                            lemma_chunks_append(r0, 0, h, h + 1 + m, self.evict_tombstones, self.gc_seqno_threshold);   // @OBL C01.6, C13.2, C02.11
                             assert(dead(r0[h]->Ok_0));
                             lemma_vals_split(r0, h + 1, m);   // @OBL C09.1
                             lemma_live_add(lg, vals(s.take(m)));   // @OBL C09.1
@@ -344,9 +349,9 @@ let keep_weak_tombstones = !head.is_tombstone () &&!self.evict_tombstones;
                             assert(s[0] == r0[h + 1]);
                             assert(krank(r0[h]) <= krank(r0[h + 1]));
                             assert(m >= 1);
-                            assert(chunks_ok(r0, h + 1 + m, h + 1 + m, self.evict_tombstones));   // @OBL C01.6, C13.2
-                            assert(chunks_ok(r0, h, h + 1 + m, self.evict_tombstones));   // @OBL C01.6, C13.2
-                            lemma_chunks_append(r0, 0, h, h + 1 + m, self.evict_tombstones);   // @OBL C01.6, C13.2
+                            assert(chunks_ok(r0, h + 1 + m, h + 1 + m, self.evict_tombstones, self.gc_seqno_threshold));   // @OBL C01.6, C13.2, C02.11
+                            assert(chunks_ok(r0, h, h + 1 + m, self.evict_tombstones, self.gc_seqno_threshold));   // @OBL C01.6, C13.2, C02.11
+                            lemma_chunks_append(r0, 0, h, h + 1 + m, self.evict_tombstones, self.gc_seqno_threshold);   // @OBL C01.6, C13.2, C02.11
                             assert(dead(r0[h]->Ok_0));
                         }/*-*/ continue;
 }
@@ -356,9 +361,9 @@ else if head.is_tombstone () &&self.evict_tombstones {
  /*+*/proof {
                     assert(r0.skip(h + 1).len() == 0);
                     assert(same_key_prefix(r0.skip(h + 1), r0[h]->Ok_0.key.user_key.rank(), false, !self.evict_tombstones) == 0);
-                    assert(chunks_ok(r0, h + 1, h + 1, self.evict_tombstones));   // @OBL C01.6, C13.2
-                    assert(chunks_ok(r0, h, h + 1, self.evict_tombstones));   // @OBL C01.6, C13.2
-                    lemma_chunks_append(r0, 0, h, h + 1, self.evict_tombstones);   // @OBL C01.6, C13.2
+                    assert(chunks_ok(r0, h + 1, h + 1, self.evict_tombstones, self.gc_seqno_threshold));   // @OBL C01.6, C13.2, C02.11
+                    assert(chunks_ok(r0, h, h + 1, self.evict_tombstones, self.gc_seqno_threshold));   // @OBL C01.6, C13.2, C02.11
+                    lemma_chunks_append(r0, 0, h, h + 1, self.evict_tombstones, self.gc_seqno_threshold);   // @OBL C01.6, C13.2, C02.11
                     assert(dead(r0[h]->Ok_0));
                 }/*-*/ continue;
 }
